@@ -286,6 +286,11 @@ func (s *State) callContract(spec *FuncSpec, callee *ssa.Function, c *ssa.CallCo
 		s.havocAll()
 	} else {
 		for _, it := range s.evalFrameItems(spec.Modifies, env) {
+			if strings.HasPrefix(it.ghost, "$spawns_") {
+				s.ghostGet(it.ghost, tInt)
+				s.ghost[it.ghost] = s.freshVal("ghost:"+it.ghost, tInt)
+				continue
+			}
 			if ct, isChan := s.eng.chanGhostT[it.ghost]; it.ghost != "" && isChan {
 				s.ghostGet(it.ghost, ct)
 				s.ghost[it.ghost] = s.freshVal("ghost:"+it.ghost, ct)
